@@ -1581,7 +1581,7 @@ theorem cnStep_spec (pod : Pod) (hp : pod.ValidPorts) (pr : Proto) (acc : ConnSe
           · have := (ConnSet.noProtos_iff acc).mp (hacc.1 h) ppr
             rw [hg] at this; cases this
         have hpsw := hacc.2 ppr ps hg
-        have hmem : ∀ x, memL ((ps.addPort (.num n)).removePort (.name name)).ports x ↔
+        have hmem : ∀ x, memL (ps.addPort (.num n)).ports x ↔
             memL ps.ports x ∨ x = n := by
           intro x
           show memL (addIv (Iv.new n n) ps.ports) x ↔ _
